@@ -8,7 +8,7 @@ usage: trypatch.py <patch.diff> [--tier quick|thorough] [ids ...]      (default:
 prints one line per property: <id> exit <code> | <summary lines>, then TESTS <pytest tail>"""
 import json, os, shutil, subprocess, sys, tempfile
 
-VERIF = os.path.dirname(os.path.dirname(os.path.abspath(__file__)))
+VERIF = os.environ.get('TRYPATCH_VERIF') or os.path.dirname(os.path.dirname(os.path.abspath(__file__)))   # a frozen copy may be given
 
 
 def sh(cmd, cwd=None, env=None, timeout=None):
